@@ -179,6 +179,7 @@ class Executor(object):
         self.used_externals = set()
         self.used_callee_clauses = set()
         self.inlined = set()
+        self.used_lemmas = set()
 
     # -- source location ----------------------------------------------------------------------
     def locate(self, relfile, qualname):
@@ -192,19 +193,20 @@ class Executor(object):
             raise CheckerError("module %s loaded from %s, expected %s" % (modname, mod.__file__, path))
         src = open(path).read()
         tree = ast.parse(src)
-        node = tree
         parts = qualname.split(".")
+        cands = [tree]
         for p in parts:
             if p == "<locals>":
                 continue
-            found = None
-            for ch in ast.walk(node) if node is not tree else ast.iter_child_nodes(node):
-                if isinstance(ch, (ast.FunctionDef, ast.ClassDef)) and ch.name == p and ch is not node:
-                    found = ch
-                    break
-            if found is None:
+            nxt = []
+            for c in cands:
+                for ch in ast.walk(c):
+                    if isinstance(ch, (ast.FunctionDef, ast.ClassDef)) and ch.name == p and ch is not c:
+                        nxt.append(ch)
+            if not nxt:
                 raise CheckerError("cannot find %s in %s" % (qualname, relfile))
-            node = found
+            cands = nxt
+        node = cands[0]
         obj = mod
         funcobj = None
         if "<locals>" not in parts:
@@ -219,7 +221,12 @@ class Executor(object):
             funcobj = f
             if not hasattr(f, "__code__"):
                 raise CheckerError("%s is not a Python function" % qualname)
-            first = node.decorator_list[0].lineno if node.decorator_list else node.lineno
+            def first_line(n):
+                return n.decorator_list[0].lineno if n.decorator_list else n.lineno
+            for cnd in cands:
+                if f.__code__.co_firstlineno in (first_line(cnd), cnd.lineno):
+                    node = cnd
+            first = first_line(node)
             if f.__code__.co_firstlineno not in (first, node.lineno) or \
                     os.path.realpath(f.__code__.co_filename) != os.path.realpath(path):
                 raise CheckerError("reflection/AST mismatch for %s: %s:%d vs AST line %d" % (
@@ -254,6 +261,8 @@ class Executor(object):
             return o
         if sort == "none":
             return None
+        if sort == "any":
+            return SVal(fresh(name, Val))
         if sort.startswith("obj:"):
             clsname = sort[4:]
             cls = self.lib.model_classes.get(clsname) or self.resolve_class(clsname)
@@ -327,13 +336,13 @@ class Executor(object):
         self.type_invariants(st, st.ghost.values())
         pre = st.fork()
         self.pre_state = pre
+        self.pre_oid_mark = _oid_counter[0]
+        self.oid_names = {}
         for r in beh.requires + beh.assumes:
             z, facts = self.spec_bool(st, pre, r, self.spec_scope(st))
             st.pc.extend(facts)
             st.assume(z)
-        for h in beh.hints:
-            _, facts = self.spec_value(st, pre, h, self.spec_scope(st))
-            st.pc.extend(facts)
+        self.use_hints(st, beh.hints)
         # case splits
         splits = [None]
         if beh.split:
@@ -366,6 +375,10 @@ class Executor(object):
                 pass  # byte range facts are added on demand by models that need them
             if isinstance(v, SVal):
                 st.assume(self.spec.val_wf(v.z))
+            if getattr(v, "kind", None) == "complex":
+                st.assume(Val.is_VComplex(v.z))
+            if getattr(v, "kind", None) == "slice":
+                st.assume(Val.is_VSlice(v.z))
 
     def spec_scope(self, st, extra=None):
         env = dict(st.ghost)
@@ -393,7 +406,7 @@ class Executor(object):
                             note="no `raises` entry allows this exception: the path must be infeasible")
                 return
             name, spec = allowed
-            scope = self.spec_scope(st, {"exc": out.value})
+            scope = self.spec_scope(st, dict(pre.env, exc=out.value))
             if spec.get("only_when"):
                 z, facts = self.spec_bool(st, pre, spec["only_when"], scope)
                 self.oblige(st, "exc:%s.only_when@%s" % (name, lab), z, props=spec.get("props", ()), kind="exc",
@@ -405,7 +418,8 @@ class Executor(object):
             self.check_frame(st, pre, beh, lab, spec.get("modifies"))
             return
         value = out.value if isinstance(out, Ret) else None
-        scope = self.spec_scope(st, {"result": value})
+        # in postconditions a parameter name denotes its value at entry (parameters are mutable locals)
+        scope = self.spec_scope(st, dict(pre.env, result=value))
         for cname, (expr, props) in beh.ensures.items():
             z, facts = self.spec_bool(st, pre, expr, scope)
             self.oblige(st, "post:%s@%s" % (cname, lab), z, props=props, kind="post", extra_hyps=facts)
@@ -609,11 +623,10 @@ class Executor(object):
             res = []
             z = v.z
             items = Val.titems(z)
-            cur = items
-            elems = []
-            for i in range(n):
-                elems.append(VL.hd(cur))
-                cur = VL.tl(cur)
+            elems = [fresh("unpacked", Val) for i in range(n)]
+            spine = VL.nil
+            for x in reversed(elems):
+                spine = VL.cons(x, spine)
             shape = [Val.is_VTuple(z)]
             c2 = items
             for i in range(n):
@@ -622,6 +635,10 @@ class Executor(object):
             shape.append(c2 == VL.nil)
             ok = z3.And(shape)
             good = st.fork().assume(ok).label("L%d:unpack%d" % (self.rel_line(target), n))
+            good.assume(items == spine)
+            # element-wise predicates of the item list, unfolded along the now explicit spine
+            for fact in self.spec.spine_facts(self, good, SVL(spine)):
+                good.assume(fact)
             outs = [(good, None)]
             for t, x in zip(target.elts, elems):
                 nxt = []
@@ -889,16 +906,47 @@ class Executor(object):
             z, facts = self.spec_bool(st, self.pre_state, inv, self.spec_scope(st, extra_scope))
             st.pc.extend(facts)
             st.assume(z)
-        for h in lc.get("hints", []):
-            _, facts = self.spec_value(st, self.pre_state, h, self.spec_scope(st, extra_scope))
+        self.use_hints(st, lc.get("hints", []), extra_scope)
+
+    def use_hints(self, st, hints, extra_scope=None):
+        """hints are evaluated for their unfoldings; an instance of a proved lemma is assumed"""
+        for h in hints:
+            v, facts = self.spec_value(st, self.pre_state, h, self.spec_scope(st, extra_scope))
             st.pc.extend(facts)
+            if self.spec.is_lemma_use(h):
+                st.assume(ops._z(truth(v)))
+                self.used_lemmas.add(h.split("(")[0])
+
+    def loop_ghost_init(self, st, lc):
+        for g, (sort, init, step) in lc.get("ghost", {}).items():
+            v, facts = self.spec_value(st, self.pre_state, init, self.spec_scope(st))
+            st.pc.extend(facts)
+            st.ghost[g] = self.coerce_spec(v, sort)
+
+    def loop_ghost_havoc(self, st, lc, k):
+        for g, (sort, init, step) in lc.get("ghost", {}).items():
+            st.ghost[g] = self.fresh_of(sort, "%s@loop%d" % (g, k))
+
+    def loop_ghost_step(self, st, lc):
+        new = {}
+        for g, (sort, init, step) in lc.get("ghost", {}).items():
+            v, facts = self.spec_value(st, self.pre_state, step, self.spec_scope(st))
+            st.pc.extend(facts)
+            new[g] = self.coerce_spec(v, sort)
+        st.ghost.update(new)
+        self.use_hints(st, lc.get("step_hints", []))
+
+    def coerce_spec(self, v, sort):
+        return WRAP[sort](self.spec.to_sort(v, sort)) if sort in WRAP else v
 
     def st_While(self, st, s):
         k, lc = self.loop_contract(s)
+        self.loop_ghost_init(st, lc)
         self.check_invariants(st, lc, k, "init")
         h = st.fork()
         h.labels = ["loop%d" % k]
         self.havoc(h, self.assigned_names(s.body), lc, k)
+        self.loop_ghost_havoc(h, lc, k)
         self.assume_invariants(h, lc)
         for st1, c in self.ev_truth(h, s.test):
             if isinstance(c, Raised):
@@ -912,6 +960,7 @@ class Executor(object):
                     continue
                 for st3, out in self.exec_block(st2, s.body):
                     if out is None or isinstance(out, Cont):
+                        self.loop_ghost_step(st3, lc)
                         self.check_invariants(st3, lc, k, "keep")
                     elif isinstance(out, Brk):
                         yield self.rejoin(st, st3), None
@@ -979,6 +1028,7 @@ class Executor(object):
 
     def for_vl(self, st, node, vl, target, body, orelse, k, lc, restname):
         st.ghost[restname] = vl
+        self.loop_ghost_init(st, lc)
         self.check_invariants(st, lc, k, "init")
         h = st.fork()
         h.labels = ["loop%d" % k]
@@ -986,9 +1036,11 @@ class Executor(object):
         self.havoc(h, names, lc, k)
         rest = SVL(fresh("%s@loop%d" % (restname, k), VL))
         h.ghost[restname] = rest
+        self.loop_ghost_havoc(h, lc, k)
         self.assume_invariants(h, lc)
         # exit
         ex = h.fork().assume(rest.z == VL.nil).label("L%d:exit" % self.rel_line(node))
+        self.use_hints(ex, lc.get("exit_hints", []))
         for r in self.exec_block(self.rejoin(st, ex), orelse):
             yield r
         # one iteration
@@ -1000,6 +1052,7 @@ class Executor(object):
                 continue
             for st2, out in self.exec_block(st1, body):
                 if out is None or isinstance(out, Cont):
+                    self.loop_ghost_step(st2, lc)
                     self.check_invariants(st2, lc, k, "keep")
                 elif isinstance(out, Brk):
                     yield self.rejoin(st, st2), None
@@ -1011,21 +1064,25 @@ class Executor(object):
             raise Unsupported("for-range target")
         iname = target.id
         st.env[iname] = i2v(rng.lo)
+        self.loop_ghost_init(st, lc)
         self.check_invariants(st, lc, k, "init")
         h = st.fork()
         h.labels = ["loop%d" % k]
         self.havoc(h, self.assigned_names(body), lc, k)
+        self.loop_ghost_havoc(h, lc, k)
         i = SInt(fresh("%s@loop%d" % (iname, k), Int))
         h.env[iname] = i
         h.assume(i.z >= rng.lo)
         self.assume_invariants(h, lc)
         ex = h.fork().assume(i.z >= rng.hi).label("L%d:exit" % self.rel_line(node))
+        self.use_hints(ex, lc.get("exit_hints", []))
         for r in self.exec_block(self.rejoin(st, ex), orelse):
             yield r
         it = h.fork().assume(i.z < rng.hi).label("L%d:iter" % self.rel_line(node))
         for st2, out in self.exec_block(it, body):
             if out is None or isinstance(out, Cont):
                 st2.env[iname] = i2v(i.z + 1)
+                self.loop_ghost_step(st2, lc)
                 self.check_invariants(st2, lc, k, "keep")
             elif isinstance(out, Brk):
                 yield self.rejoin(st, st2), None
@@ -1214,7 +1271,8 @@ class Executor(object):
                 yield r
             return
         if isinstance(o, Sym):
-            yield st, self.lib.sym_method(self, o, name, node)
+            for r in self.lib.sym_getattr(self, st, o, name, node):
+                yield r
             return
         if isinstance(o, tuple):
             raise Unsupported("attribute %s of tuple" % name)
@@ -1402,10 +1460,14 @@ class Executor(object):
                 return v
             if isinstance(v, SVal):
                 raise Unsupported("dynamic value passed where heap object expected (%s)" % what)
-        if isinstance(v, SVal) and sort in ("int", "bool", "bytes", "str", "f64"):
+        if isinstance(v, SVal) and sort in ("int", "bool", "bytes", "str", "f64", "vl", "fset", "slice", "complex"):
+            ident = lambda z: z
             test, proj, W = {"int": (Val.is_VInt, Val.vi, SInt), "bool": (Val.is_VBool, Val.vb, SBool),
                              "bytes": (Val.is_VBytes, Val.vby, SBytes), "str": (Val.is_VStr, Val.vs, SStr),
-                             "f64": (Val.is_VFloat, Val.vf, SF64)}[sort]
+                             "f64": (Val.is_VFloat, Val.vf, SF64), "vl": (Val.is_VTuple, Val.titems, SVL),
+                             "fset": (Val.is_VFset, Val.fitems, WRAP["fset"]),
+                             "slice": (Val.is_VSlice, ident, WRAP["slice"]),
+                             "complex": (Val.is_VComplex, ident, WRAP["complex"])}[sort]
             self.oblige(st, "pre-type:%s@L%d[%s]" % (what, self.rel_line(node), self.path_label(st)), test(v.z),
                         props=self.all_props(self.cur[1]), kind="pre",
                         note="argument must have exactly the declared type of the callee's parameter")
@@ -1435,7 +1497,8 @@ class Executor(object):
         name = f.__name__
         key = self.call_key(name)
         caller_beh = self.cur[1]
-        hint = caller_beh.calls.get(key) or caller_beh.calls.get(name) or {}
+        hint = caller_beh.calls.get(key) or caller_beh.calls.get(name) or caller_beh.calls.get("*") or {}
+        self.call_ordinals[name] = self.call_ordinals.get(name, 0) + 1
         bname = hint.get("behaviour") or (caller_beh.name if caller_beh.name in c.behaviours else "default")
         if bname not in c.behaviours:
             raise CheckerError("callee %s has no behaviour %s" % (c.target, bname))
